@@ -33,7 +33,7 @@ TRUSTED = ["Coq 8.16.1 kernel; no axioms",
            "tools/py2coq/gen_more.py:gen_poollocks, gen_wrappers (every PooledClient method brackets its use in get_and_release)",
            "extraction: ExtrOcamlBasic only; coq/Extract/ocaml/driver.ml"]
 ASSUMPTIONS = ["single deque operations and threading.Lock are atomic (CPython)", "threads release or destroy only what they checked out (get_and_release)",
-               "idle_timeout = 0 (no expiry inside get)"]
+               "the concurrent MODEL has idle_timeout = 0; idle expiry under interleavings is searched on the implementation only (its sequential semantics are C09's theorems)"]
 
 
 class Boom(Exception):
@@ -44,7 +44,7 @@ class Stop(BaseException):
     pass
 
 
-def run_pool(max_size, progs, plan, opcodes=False, pooled=False, yield_points=False):
+def run_pool(max_size, progs, plan, opcodes=False, pooled=False, yield_points=False, idle=0):
     """-> (status, outcome, problems, steps, trace)"""
     import pymemcache.pool as pool_mod
     import pymemcache.client.base as base_mod
@@ -80,11 +80,19 @@ def run_pool(max_size, progs, plan, opcodes=False, pooled=False, yield_points=Fa
                 problems.append("connection %d was closed while another thread was using it" % self.id)
             closed.append(self.id)
     if pooled:
-        pc = base_mod.PooledClient(("h", 1), max_pool_size=max_size, lock_generator=CoopLock)
+        pc = base_mod.PooledClient(("h", 1), max_pool_size=max_size, lock_generator=CoopLock, pool_idle_timeout=idle)
         pc.client_class = Obj
         pool = pc.client_pool
     else:
-        pool = pool_mod.ObjectPool(Obj, after_remove=lambda o: closed.append(o.id), max_size=max_size, lock_generator=CoopLock)
+        pool = pool_mod.ObjectPool(Obj, after_remove=lambda o: closed.append(o.id), max_size=max_size, lock_generator=CoopLock, idle_timeout=idle)
+    if idle:
+        # a clock that jumps past the idle timeout at every reading: every checkout finds the idle objects expired
+        ticks = [0]
+
+        def fake_clock():
+            ticks[0] += 10 * idle
+            return ticks[0]
+        pool._idle_clock = fake_clock
 
     def body(tid, prog):
         def f():
@@ -255,14 +263,26 @@ def search(ctx):
         status, outcome, problems, steps, trace = r
         if problems:
             found.append({"clause": problems[0], "input": {"class": "PooledClient" if pooled else "ObjectPool", "max_size": sc[0], "programs": repr(sc[1]),
-                                                            "granularity": "opcode" if opcodes else "line", "preempt_at_steps": [x for x in plan if x != "yield"],
+                                                            "granularity": "opcode" if opcodes else "line", "preempt_at_steps": [x for x in plan if x not in ("yield", "idle")], "pool_idle_timeout": 5 if "idle" in plan else 0,
                                                             "socket_calls_block": "yield" in plan},
-                          "observed": repr(outcome), "schedule": [(t, w[1:]) for t, w in trace][:80], "size": len([x for x in plan if x != "yield"]) * 1000 + steps,
+                          "observed": repr(outcome), "schedule": [(t, w[1:]) for t, w in trace][:80], "size": len([x for x in plan if x not in ("yield", "idle")]) * 1000 + steps,
                           "case": repr((sc, plan, opcodes, pooled))})
             return len(found) >= 8
         return False
     n = explore(ctx, check)
-    ctx.search_summary = {"interleavings_run": n}
+    # the same accounting with pool_idle_timeout set and every idle object expired at every checkout (no model behind these runs:
+    # the concurrent model has no clock; the sequential one is C09's)
+    rng = random.Random(ctx.seed * 89 + 8)
+    ni = 0
+    for sc in [(2, [[0, 0], [0]]), (2, [[0], [0], [0]]), (1, [[0, 1], [0]]), (3, [[0, 0, 0], [1, 0]])]:
+        for pooled in (False, True):
+            base = run_pool(sc[0], sc[1], (), False, pooled, False, 5)
+            for plan in plans_for(base[3] + 2, 2, rng, 25 if ctx.quick else 300):
+                ni += 1
+                r = run_pool(sc[0], sc[1], plan, False, pooled, False, 5)
+                if check(sc, plan + ("idle",), False, pooled, r):
+                    break
+    ctx.search_summary = {"interleavings_run": n, "with_idle_expiry": ni}
     found.sort(key=lambda v: v["size"])
     return found[:1]
 
@@ -272,6 +292,6 @@ def replay(ctx, obj):
     if not v or not v.get("case"):
         return None
     sc, plan, opcodes, pooled = eval(v["case"])
-    r = run_pool(sc[0], sc[1], tuple(x for x in plan if x != "yield"), opcodes, pooled, "yield" in plan)
+    r = run_pool(sc[0], sc[1], tuple(x for x in plan if x not in ("yield", "idle")), opcodes, pooled, "yield" in plan, 5 if "idle" in plan else 0)
     print(r[0], r[1], r[2])
     return bool(r[2])
